@@ -93,6 +93,10 @@ var props = map[string]propSpec{
 		Rule: "one case = topology 1-3 shards x 1-3 replicas hot (+ optional long-term tier), real bulk.SeqDBClient with the real circuit breaker (timeouts 50ms..1s, thresholds, sleep window on the fake clock) over scripted stub stores; per replica and call one of: ok, error, hang until the deadline, success after the deadline, reply lost, answer right at the deadline; 1-2 concurrent clients; oracle over the stubs' call log: acknowledged => some hot shard (and some long-term shard) has every replica with a successful call carrying exactly this payload, at most BulkMaxTries deliveries per replica, progress once faults stop; non-trivial = a non-ok outcome fired or the scheduler pre-empted; distinct = distinct (interleaving hash, fired outcome counts)",
 		Assume: []string{"stub stores answer as scripted; the payload is opaque bytes"},
 		Real:   []string{"proxy/bulk.SeqDBClient (storeDocs, sendBulkToStores, shard.Bulk, write status)", "network/circuitbreaker + cep21/circuit (real)"}, Stub: []string{"stores = scripted StoreApiClient stubs", "clock = synctest fake clock", "scheduling = verifsim"}},
+	"C10": {Engine: "proxysim", Level: "exploration", Batch: 300, QuickSec: 30, ThorSec: 600,
+		Rule: "one case = an ES bulk body from a grammar (action/document lines, valid object documents with escapes/unicode/nesting, non-objects, invalid JSON, over-size lines, empty lines, CRLF, unknown actions, missing final newline, body cut at byte k, read error at byte k, gzip) handed to the real BulkHandler.ServeHTTP -> real bulk.Ingestor (processor, indexer, tokenizers) -> capturing StorageClient, at a simulated clock; document times at -drift-1s, -drift, -drift+1s, +future-1s, +future, +future+1s and far; the same body is delivered four times with different chunkings of the reader (whole, byte by byte, two seeded chunkings); oracle = independent framing parser + time rule; the outcome must be identical for every chunking; non-trivial = always (every case exercises the stream); distinct = distinct (status counts, interleaving hash)",
+		Assume: []string{"document lines stay clear of the size limit itself (50 bytes below / 10 above): the boundary behaviour of the limit depends on the line terminator and is not part of the property", "valid/invalid JSON judged by encoding/json on clear-cut cases"},
+		Real:   []string{"proxyapi.BulkHandler (esBulkDocReader, gzip, response)", "proxy/bulk.Ingestor, processor, indexer", "tokenizer", "frac.DocsMetasCompressor"}, Stub: []string{"storage = capturing StorageClient that decodes the payload", "request body = seeded chunk reader", "clock = synctest fake clock"}},
 	"C16": {Engine: "proxysim", Level: "fault_enumeration", Batch: 300, QuickSec: 30, ThorSec: 600,
 		Rule: "one case = topology 1-3 shards x 1-3 replicas (+ optional long-term tier), real search.Ingestor (searchStores/searchShard, MergeQPRs, pagination, FetchDocsStream, merged docs iterators) over scripted stub stores answering from their slice of a model corpus; per call: ok, error, wants-old-data, too-many-fractions, with seeded latencies that decide the arrival order of shard replies; per fetch stream: ok, error, break after k, missing/extra/duplicated/swapped document; 1-4 requests per run (offset/size/order/fetch); oracle: error, or ids = correct merged top over exactly the shards that had an answering replica, flagged partial iff some shard had none, long-term tier consulted iff a hot store wants old data, i-th document is the document of the i-th id or empty; a panic inside the proxy is treated as the error response its recovery interceptor produces; non-trivial = a non-ok outcome fired or the scheduler pre-empted; distinct = distinct (interleaving hash, fired outcome counts)",
 		Assume: []string{"stub stores answer searches correctly for their own slice when scripted ok"},
